@@ -16,10 +16,11 @@ import abacusnbody.analysis.power_spectrum as ps
 
 ID = 'C08'
 BOUNDS = {
-    'quick': 'mesh n1d in {2,3,4} (odd and even); bin_kmu: Nk in {1,2} free increasing k edges (>= 0, below/above Nyquist, starting '
-             'above 0), mu edges [0, m, 1] with free m or [0,1]; poles in {(), (0,2), (0,2,4)}; bin_kppi: Nk in {1,2}, free pimax, '
-             'Npi in {1,2}; fourier in {T,F}; nthread in {1,2}; mesh values free reals; thread ids free per prange iteration',
-    'thorough': 'n1d in {2..6}; Nk up to 3; poles additionally (1,3) and (0,1,2,3,4); nthread up to 3',
+    'quick': 'mesh n1d in {2,3,4} (odd and even); bin_kmu: Nk in {1,2} free increasing k edges (> 0, anywhere below or above Nyquist), '
+             'mu edges [0, m, 1] with free m or [0,1]; poles in {(), (0,2), (0,2,4)}; bin_kppi: Nk in {1,2}, free pimax, Npi in {1,2}; '
+             'fourier in {T,F}; nthread in {1,2} (2 only for n1d<=3); mesh values free reals; thread ids free per prange iteration; '
+             'see items() for the exact combinations',
+    'thorough': 'n1d in {2..6}; Nk up to 3; nthread up to 3; more (mu, poles, Npi) combinations',
 }
 OUTSIDE = 'modes lying exactly on a bin edge (the property does not fix open/closed ends: excluded by assumption); float32 rounding ' \
           'of |k|^2, mu^2 and the Legendre weights (exact rationals in the model); mesh sizes and bin counts above the bound'
@@ -255,27 +256,37 @@ def body_kppi(n1d, Nk, Npi, fourier, nthread, k0_zero):
 
 
 def items(tier, seed):
+    """(n1d, fourier, nthread, Nk, mu_free, poles) for bin_kmu and (n1d, fourier, nthread, Nk, Npi) for bin_kppi.
+    Path counts grow with the number of distinct |k|^2 values times the number of free edges, and the per-thread
+    accumulators add If-chains, so the richer combinations are kept for the thorough tier."""
+    kmu, kppi = [], []
+    for n in (2, 3, 4):
+        for F in (True, False):
+            kmu.append((n, F, 1, 1, False, ()))
+            kppi.append((n, F, 1, 1, 1))
+        kmu.append((n, True, 1, 1, False, (0, 2, 4)))
+        kmu.append((n, True, 1, 1, True, (0, 2)))
+        kppi.append((n, True, 1, 1, 2))
+    for n in (2, 3):
+        kmu.append((n, True, 2, 1, False, (0, 2)))
+        kmu.append((n, True, 1, 2, False, ()))
+        kppi.append((n, True, 2, 1, 1))
+        kppi.append((n, True, 1, 2, 1))
+    kmu.append((2, True, 1, 2, True, (0, 2, 4)))
+    kppi.append((4, True, 1, 2, 1))
+    if tier == 'thorough':
+        for n in (5, 6):
+            kmu += [(n, True, 1, 1, False, ()), (n, False, 1, 1, False, (0, 2)), (n, True, 1, 1, True, (0, 2, 4))]
+            kppi += [(n, True, 1, 1, 1), (n, False, 1, 1, 2), (n, True, 1, 2, 1)]
+        kmu += [(3, True, 1, 2, True, (0, 2)), (4, True, 1, 2, False, (0, 2, 4)), (4, True, 2, 1, False, (0, 2)), (3, True, 3, 1, False, ()),
+                (4, False, 2, 1, False, ()), (3, True, 1, 3, False, ()), (2, True, 3, 2, True, (0, 2, 4))]
+        kppi += [(3, True, 1, 2, 2), (4, True, 2, 1, 1), (4, True, 1, 2, 2), (3, True, 3, 1, 2), (3, True, 1, 3, 1)]
     out = []
-    ns = (2, 3, 4) if tier == 'quick' else (2, 3, 4, 5, 6)
-    for n1d in ns:
-        for fourier in (True, False):
-            for nthread in ((1, 2) if tier == 'quick' else (1, 2, 3)):
-                if n1d >= 4 and nthread > 1 and not fourier:
-                    continue
-                for Nk in ((1, 2) if tier == 'quick' or n1d > 4 else (1, 2, 3)):
-                    if n1d >= 5 and Nk > 1 and nthread > 1:
-                        continue
-                    for k0 in (False,):    # a first edge at exactly 0 puts the k=0 mode on an edge (tie: excluded); any edge > 0 is covered
-                        for mu_free, poles in ((False, ()), (True, (0, 2)), (False, (0, 2, 4))):
-                            if n1d >= 4 and Nk > 1 and mu_free:
-                                continue
-                            out.append(dict(name=f'kmu/n={n1d}/F={int(fourier)}/t={nthread}/Nk={Nk}/k0={int(k0)}/mu={int(mu_free)}/poles={len(poles)}',
-                                            kind='kmu', n1d=n1d, Nk=Nk, mu_free=mu_free, poles=poles, fourier=fourier, nthread=nthread, k0=k0))
-                        for Npi in (1, 2):
-                            if n1d >= 4 and Nk > 1 and Npi > 1:
-                                continue
-                            out.append(dict(name=f'kppi/n={n1d}/F={int(fourier)}/t={nthread}/Nk={Nk}/k0={int(k0)}/Npi={Npi}',
-                                            kind='kppi', n1d=n1d, Nk=Nk, Npi=Npi, fourier=fourier, nthread=nthread, k0=k0))
+    for n, F, t, Nk, mu, poles in kmu:
+        out.append(dict(name=f'kmu/n={n}/F={int(F)}/t={t}/Nk={Nk}/mu={int(mu)}/poles={len(poles)}', kind='kmu', n1d=n, Nk=Nk, mu_free=mu,
+                        poles=poles, fourier=F, nthread=t, k0=False))
+    for n, F, t, Nk, Npi in kppi:
+        out.append(dict(name=f'kppi/n={n}/F={int(F)}/t={t}/Nk={Nk}/Npi={Npi}', kind='kppi', n1d=n, Nk=Nk, Npi=Npi, fourier=F, nthread=t, k0=False))
     return out
 
 
